@@ -79,6 +79,25 @@ def confirm_misaligned(c, lv, w, lags):
     return "; ".join(confirmed) if confirmed else None
 
 
+def real_only_verdict(c, lv, V):
+    """the property's count arithmetic on a REAL run, for instances without a usable model result"""
+    real = c.real.get(tuple(lv))
+    if real is None or real.get("deadlock") or real.get("crash"):
+        return
+    n, w = lv[0], c.idle
+    counts = [o["n"] for o in real["outs"]]
+    exp = max(0, n - w)
+    rel = "short" if n <= w else "long"
+    replay = {"pipe": c.pipe, "cfg": c.cfg, "cap": c.cap, "lens": lv, "idle": w, "real_counts": counts, "model": None}
+    if len(set(counts)) > 1:
+        longer = [i for i, k in enumerate(counts) if k > min(counts)]
+        V.violation({"pipe": c.pipe, "symptom": "unequal-outputs", "len": rel, "longer": str(longer)},
+                    "%s n=%d: outputs have different lengths %s (declared warm-up %d)" % (c.key(), n, counts, w), replay)
+    elif any(k != exp for k in counts):
+        V.violation({"pipe": c.pipe, "symptom": "extra-values" if counts[0] > exp else "missing-values", "len": rel},
+                    "%s n=%d: emits %s values, declared warm-up %d requires %d" % (c.key(), n, counts, w, exp), replay)
+
+
 def main():
     t0 = time.time()
     tier = vlib.tier()
@@ -114,21 +133,7 @@ def main():
             # model - but what the REAL runs show against the property's arithmetic is a verdict of its own
             machinery.append("%s: %s" % (c.key(), c.error))
             for lv in c.lens:
-                real = c.real.get(tuple(lv))
-                if real is None or real.get("deadlock") or real.get("crash"):
-                    continue
-                n, w = lv[0], c.idle
-                counts = [o["n"] for o in real["outs"]]
-                exp = max(0, n - w)
-                rel = "short" if n <= w else "long"
-                replay = {"pipe": c.pipe, "cfg": c.cfg, "cap": c.cap, "lens": lv, "idle": w, "real_counts": counts, "model": None}
-                if len(set(counts)) > 1:
-                    longer = [i for i, k in enumerate(counts) if k > min(counts)]
-                    V.violation({"pipe": c.pipe, "symptom": "unequal-outputs", "len": rel, "longer": str(longer)},
-                                "%s n=%d: outputs have different lengths %s (declared warm-up %d)" % (c.key(), n, counts, w), replay)
-                elif any(k != exp for k in counts):
-                    V.violation({"pipe": c.pipe, "symptom": "extra-values" if counts[0] > exp else "missing-values", "len": rel},
-                                "%s n=%d: emits %s values, declared warm-up %d requires %d" % (c.key(), n, counts, w, exp), replay)
+                real_only_verdict(c, lv, V)
             continue
         cov.add_tlc(c.tlc)
         cov.instances += 1
@@ -140,6 +145,7 @@ def main():
             terms = c.terms.get(tuple(lv), [])
             if len(terms) != 1:
                 machinery.append("%s lens=%s: %d terminal states in reduced mode" % (c.key(), lv, len(terms)))
+                real_only_verdict(c, lv, V)
                 continue
             term = terms[0]
             if n > w or not term["done"]:
